@@ -20,6 +20,7 @@ and no component is a symlink; a symlink is only followed when the path is opene
 on a directory fails; what `gcov` and `llvm-profdata` write besides the paths they are given.
 -/
 import GrcovModel.Lemmas.ConfineDest
+import GrcovModel.Lemmas.ConfineExtract
 import GrcovModel.Props.C11
 namespace Grcov.Props.C19
 open Grcov Grcov.Confine
@@ -210,12 +211,15 @@ theorem C19_gcov_out_confined (wd : Path) (gcnoPath ext : Bytes) (p : Path) (he 
 
 /-! ### the whole run -/
 
-/-- what the producer and the consumers guarantee about a run's inputs: entry names made of normal
-components (what `Archive::explore` accepts from a zip and what `strip_prefix` leaves of a walked
-directory entry) — `enclosed` is enough —, separator-free gcov extensions, and a report whose
-relative paths are safe (from `C19_html_confined_partial`) -/
+/-- what the producer and the consumers guarantee about a run's inputs: extraction stems whose
+directories are real names and whose last name is non-empty without separator (`StemOK`: what the
+canonical spelling of an accepted zip entry and what `strip_prefix` of a walked directory entry
+are, minus the extension — DERIVED from the Producer model for `runInputOf`, see
+`C19_extracts_ok` in Props/C19Extract.lean), extensions without `/` and `.` (`gcno gcda profraw
+profdata`), separator-free gcov extensions, and a report whose relative paths are safe (from
+`C19_html_confined_partial`) -/
 structure RunOK (ri : RunInput) : Prop where
-  extracts : ∀ e ∈ ri.extracts, enclosed e.entry = true ∧ e.entry ≠ []
+  extracts : ∀ e ∈ ri.extracts, StemOK e.stem ∧ 47 ∉ e.ext ∧ 46 ∉ e.ext
   gcovExt : ∀ j ∈ ri.gcovJobs, 47 ∉ j.2.2
   report : ∀ r ∈ ri.report, UPath.isRelative r.1 = true → SafeRel r.1
 
@@ -226,26 +230,29 @@ walked names and reports. -/
 theorem C19_all_dests_confined (ri : RunInput) (ok : RunOK ri) :
     ∀ d ∈ dests ri, Under (rootPath ri d.root) d.path := by
   intro d hd
-  unfold dests at hd
+  unfold dests destsCore at hd
   simp only [List.mem_append, List.mem_map, List.mem_flatMap, List.mem_range, List.mem_cons,
     List.not_mem_nil, or_false] at hd
-  rcases hd with ((((((hd | hd) | hd) | hd) | hd) | hd) | hd) | hd
+  rcases hd with (((((((hd | hd) | hd) | hd) | hd) | hd) | hd) | hd) | hd
   · -- log
     cases hl : ri.log with
     | none => simp [hl] at hd
     | some l => simp [hl] at hd; subst hd; simp [rootPath, hl]; exact under_refl l
-  · subst hd; exact under_refl _
+  · rcases hd with rfl | rfl
+    · exact under_refl _
+    · simp only [rootPath, extractDir_eq]
+      exact under_append_enclosed _ _ (by rfl)
   · obtain ⟨i, _, rfl⟩ := hd
     simp only [rootPath, workerDir_eq]
     exact under_append_enclosed _ _ (by rfl)
   · obtain ⟨e, he, hd⟩ := hd
-    obtain ⟨h1, h2⟩ := ok.extracts e he
+    obtain ⟨h1, h2, _⟩ := ok.extracts e he
     unfold extractDests at hd
     simp only [List.mem_append, List.mem_cons, List.not_mem_nil, or_false, List.mem_map] at hd
     rcases hd with (rfl | rfl) | ⟨k, _, rfl⟩
-    · exact (zipEntryDest_under ri.tmp e.entry _ h1 h2).2
-    · exact (zipEntryDest_under ri.tmp e.entry _ h1 h2).1
-    · exact (zipEntryDest_under ri.tmp e.entry _ h1 h2).1
+    · exact (extractDest_under ri.tmp e.n h1 h2).2
+    · exact (extractDest_under ri.tmp e.n h1 h2).1
+    · exact (extractDest_under ri.tmp k h1 h2).1
   · obtain ⟨j, hj, hd⟩ := hd
     have hwd : Under ri.tmp (workerDir ri.tmp j.1) := by
       rw [workerDir_eq]; exact under_append_enclosed _ _ (by rfl)
@@ -304,6 +311,7 @@ theorem C19_all_dests_confined (ri : RunInput) (ok : RunOK ri) :
         · obtain ⟨h1, h2⟩ := C19_html_entry_confined ri.out r.1 r.2 (ok.report r hr hrel) d hd
           rw [h1]; exact h2
         · simp [htmlEntryDests, hrel] at hd
+  · subst hd; exact under_refl _
 
 /-! ### inputs are never altered -/
 
@@ -329,35 +337,39 @@ theorem C19_inputs_untouched (ri : RunInput) (ok : RunOK ri) (input : Path)
     exact h2 (List.IsPrefix.trans ⟨rest, e.symm⟩ hp)
 
 /-- The links into the inputs are exactly the extractions from DIRECTORY inputs, at their own
-`tmp/<stem>_<n>.<ext>`; everything else a run opens for writing is a different kind of
-destination (`writeDests`). What opens a link afterwards — `gcov` for its gcno/gcda, `llvm-profdata`
-for the profiles it merges — reads it (trusted: the tools' behaviour and the kernel's symlink
-semantics; checked: the input snapshots of harness/c19). -/
+`tmp/inputs/<stem>_<n>.<ext>`, together with the further numbers under which such a gcno is
+"hard-linked" (`fs::hard_link` of a symlink makes another link to the same input file);
+everything else a run opens for writing is a different kind of destination (`writeDests`). What
+opens a link afterwards — `gcov` for its gcno/gcda, `llvm-profdata` for the profiles it merges —
+reads it (trusted: the tools' behaviour and the kernel's symlink semantics; checked: the input
+snapshots of harness/c19). -/
 theorem C19_link_dests (ri : RunInput) (p : Path) :
     p ∈ linkDests ri ↔
-      ∃ e ∈ ri.extracts, e.fromZip = false ∧ p = zipEntryDest ri.tmp e.entry (numbered e.n e.ext) := by
-  unfold linkDests dests
+      ∃ e ∈ ri.extracts, e.fromZip = false ∧
+        ∃ k ∈ e.n :: e.hardlinks, p = extractDest ri.tmp e.stem k e.ext := by
+  unfold linkDests dests destsCore
   simp only [List.mem_map, List.mem_filter, decide_eq_true_eq]
   constructor
   · rintro ⟨d, ⟨hd, hk⟩, rfl⟩
     simp only [List.mem_append, List.mem_map, List.mem_flatMap, List.mem_range, List.mem_cons,
       List.not_mem_nil, or_false] at hd
-    rcases hd with ((((((hd | hd) | hd) | hd) | hd) | hd) | hd) | hd
+    rcases hd with (((((((hd | hd) | hd) | hd) | hd) | hd) | hd) | hd) | hd
     · cases hl : ri.log with
       | none => simp [hl] at hd
       | some l => simp [hl] at hd; subst hd; simp at hk
-    · subst hd; simp at hk
+    · rcases hd with rfl | rfl <;> simp at hk
     · obtain ⟨i, _, rfl⟩ := hd; simp at hk
     · obtain ⟨e, he, hd⟩ := hd
       unfold extractDests at hd
       simp only [List.mem_append, List.mem_cons, List.not_mem_nil, or_false, List.mem_map] at hd
-      rcases hd with (rfl | rfl) | ⟨k, _, rfl⟩
-      · simp at hk
-      · refine ⟨e, he, ?_, rfl⟩
+      have hz : e.fromZip = false := by
         cases hz : e.fromZip
         · rfl
-        · simp [hz] at hk
+        · rcases hd with (rfl | rfl) | ⟨k, _, rfl⟩ <;> simp [hz] at hk
+      rcases hd with (rfl | rfl) | ⟨k, hkm, rfl⟩
       · simp at hk
+      · exact ⟨e, he, hz, e.n, by simp, rfl⟩
+      · exact ⟨e, he, hz, k, by simp [hkm], rfl⟩
     · obtain ⟨j, _, hd⟩ := hd
       unfold gcovDests at hd
       split at hd <;> simp at hd <;> rcases hd with rfl | rfl <;> simp at hk
@@ -384,12 +396,15 @@ theorem C19_link_dests (ri : RunInput) (p : Path) :
               rcases hd with rfl | rfl | rfl | rfl <;> simp at hk
             · simp at hd
           · simp at hd
-  · rintro ⟨e, he, hz, rfl⟩
+    · subst hd; simp at hk
+  · rintro ⟨e, he, hz, k, hkm, rfl⟩
     refine ⟨⟨.symlink, .tmp, _⟩, ⟨?_, rfl⟩, rfl⟩
     simp only [List.mem_append, List.mem_flatMap]
-    refine Or.inl (Or.inl (Or.inl (Or.inl (Or.inr ⟨e, he, ?_⟩))))
+    refine Or.inl (Or.inl (Or.inl (Or.inl (Or.inl (Or.inr ⟨e, he, ?_⟩)))))
     simp only [extractDests, hz, Bool.false_eq_true, if_false]
-    exact List.mem_append_left _ (List.mem_cons_of_mem _ List.mem_cons_self)
+    rcases List.mem_cons.1 hkm with rfl | hkm
+    · exact List.mem_append_left _ (List.mem_cons_of_mem _ List.mem_cons_self)
+    · exact List.mem_append_right _ (List.mem_map.2 ⟨k, hkm, rfl⟩)
 
 /-! ### removals -/
 
@@ -406,12 +421,12 @@ theorem C19_profdata_removal_confined (ri : RunInput) (i : Nat) (hi : i ∈ ri.p
     rw [join_of_enclosed _ (enc1 _)]
     simp
   refine ⟨?_, ?_, under_append_enclosed _ _ (by rfl)⟩
-  · unfold dests
+  · unfold dests destsCore
     simp only [List.mem_append, List.mem_flatMap]
-    exact Or.inl (Or.inr ⟨i, hi, by rw [e]; simp⟩)
-  · unfold dests
+    exact Or.inl (Or.inl (Or.inr ⟨i, hi, by rw [e]; simp⟩))
+  · unfold dests destsCore
     simp only [List.mem_append, List.mem_flatMap]
-    exact Or.inl (Or.inr ⟨i, hi, by rw [e]; simp⟩)
+    exact Or.inl (Or.inl (Or.inr ⟨i, hi, by rw [e]; simp⟩))
 
 /-- EVERY file a run removes lies inside a worker directory `tmp/<w>/…`: its path is the temp dir,
 a worker index, and normal components only — for all inputs (gcno paths, walked names, profiles,
@@ -420,14 +435,14 @@ theorem C19_removals_inside_worker_dirs (ri : RunInput) (hext : ∀ j ∈ ri.gco
     ∀ d ∈ dests ri, d.kind = .removeFile →
       d.root = .tmp ∧ ∃ w rest, d.path = ri.tmp ++ Comp.normal (dec w) :: rest ∧ plain rest = true := by
   intro d hd hk
-  unfold dests at hd
+  unfold dests destsCore at hd
   simp only [List.mem_append, List.mem_map, List.mem_flatMap, List.mem_range, List.mem_cons,
     List.not_mem_nil, or_false] at hd
-  rcases hd with ((((((hd | hd) | hd) | hd) | hd) | hd) | hd) | hd
+  rcases hd with (((((((hd | hd) | hd) | hd) | hd) | hd) | hd) | hd) | hd
   · cases hl : ri.log with
     | none => simp [hl] at hd
     | some l => simp [hl] at hd; subst hd; simp at hk
-  · subst hd; simp at hk
+  · rcases hd with rfl | rfl <;> simp at hk
   · obtain ⟨i, _, rfl⟩ := hd; simp at hk
   · obtain ⟨e, _, hd⟩ := hd
     unfold extractDests at hd
@@ -435,7 +450,7 @@ theorem C19_removals_inside_worker_dirs (ri : RunInput) (hext : ∀ j ∈ ri.gco
     rcases hd with (rfl | rfl) | ⟨k, _, rfl⟩
     · simp at hk
     · cases hz : e.fromZip <;> simp [hz] at hk
-    · simp at hk
+    · cases hz : e.fromZip <;> simp [hz] at hk
   · obtain ⟨j, hj, hd⟩ := hd
     unfold gcovDests at hd
     cases hg : gcovOutPath (workerDir ri.tmp j.1) j.2.1 j.2.2 with
@@ -477,6 +492,7 @@ theorem C19_removals_inside_worker_dirs (ri : RunInput) (hext : ∀ j ∈ ri.gco
             rcases hd with rfl | rfl | rfl | rfl <;> simp at hk
           · simp at hd
         · simp at hd
+  · subst hd; simp at hk
 
 /-! ### non-vacuity -/
 
@@ -488,16 +504,16 @@ def exRun : RunInput :=
     out := [.normal [111], .normal [104]],
     log := some [.normal [108, 111, 103]],
     threads := 2,
-    extracts := [⟨true, [.normal [115, 117, 98], .normal [120]], 2, [103, 99, 100, 97], []⟩,
-                 ⟨false, [.normal [121]], 1, [103, 99, 110, 111], [2]⟩],
-    gcovJobs := [(0, [47, 116, 47, 46, 116, 109, 112, 88, 47, 121, 95, 49, 46, 103, 99, 110, 111], [46, 103, 99, 111, 118])],
+    extracts := [⟨true, [115, 117, 98, 47, 120], 2, [103, 99, 100, 97], []⟩,
+                 ⟨false, [121], 1, [103, 99, 110, 111], [2]⟩],
+    gcovJobs := [(0, [47, 116, 47, 46, 116, 109, 112, 88, 47, 105, 110, 112, 117, 116, 115, 47, 121, 95, 49, 46, 103, 99, 110, 111], [46, 103, 99, 111, 118])],
     walked := [(1, [[97, 46, 103, 99, 111, 118]])],
     profileJobs := [1],
     outKind := .html true,
     report := [([115, 114, 99, 47, 97, 46, 99], true), ([46, 98, 97, 115, 104, 114, 99], true),
                ([47, 117, 115, 114, 47, 105, 46, 104], true), ([98, 46, 99], false)] }
 
-example : (dests exRun).length = 32 := by decide
+example : (dests exRun).length = 34 := by decide
 example : resolve (htmlFileDest exRun.out [115, 114, 99, 47, 97, 46, 99])
     = [[111], [104], [115, 114, 99], [97, 46, 99, 46, 104, 116, 109, 108]] := by decide
 example : SafeRel [115, 114, 99, 47, 97, 46, 99] :=
